@@ -1309,7 +1309,34 @@ fn gen_c16(seed: u64) -> Plan {
 
 /// Random event orders: connects, disconnects, ticks, solicited / unsolicited / duplicated
 /// messages, clock positions around the 8 s and 60 s boundaries.
+/// Slow peers: the proof request is answered late and with a newer last state only (the chain
+/// grew meanwhile), the replacing request is answered late again; refresh ticks fall between 60 s
+/// after the first request and 60 s after the second.
+fn gen_c11_slow(seed: u64) -> Plan {
+    let mut b = base("C11", mix(&[seed, 0x11e]), 60, 2);
+    let np = b.plan.peers.len();
+    let mut until = 0;
+    for p in 0..np {
+        let connect_at = b.rng.range(0, 500);
+        add(&mut b.plan, connect_at, Action::Connect { peer: p });
+        let (lat, jit) = (b.plan.peers[p].latency, b.plan.peers[p].jitter);
+        // after the peer has answered GetLastState, before the proof request reaches it
+        let stall_at = connect_at + lat + jit + (2 * lat).saturating_sub(2 * jit) / 2 + 1;
+        let s1 = b.rng.range(35_000, 56_000);
+        add(&mut b.plan, stall_at, Action::Stall { peer: p, ms: s1 });
+        add(&mut b.plan, stall_at + b.rng.range(1_000, s1 - 1_000), Action::Mine { branch: 0, n: 1 });
+        let s2 = b.rng.range(30_000, 64_000);
+        add(&mut b.plan, stall_at + s1 + 1, Action::Stall { peer: p, ms: s2 });
+        until = until.max(stall_at + s1 + s2 + 20_000);
+    }
+    b.plan.flags = vec!["byz".into(), "statemachine".into()];
+    finish(b, until, 150_000)
+}
+
 fn gen_c11(seed: u64) -> Plan {
+    if mix(&[seed, 0xc11e]) % 5 == 0 {
+        return gen_c11_slow(seed);
+    }
     let mut b = base("C11", seed, 80, 3);
     let np = b.plan.peers.len();
     for p in 0..np {
@@ -1382,6 +1409,14 @@ fn gen_c18(seed: u64) -> Plan {
     } else {
         let tip = b.plan.initial_blocks;
         random_scripts(&mut b, 3, tip)
+    };
+    // in a quarter of the worlds the scripts are watched from a few blocks below the tip only: the
+    // client then knows the newest headers but not the 37 a median time is computed from
+    let scripts = if mix(&[seed, 0x18e]) % 4 == 0 {
+        let from = b.plan.initial_blocks.saturating_sub(2 + mix(&[seed, 0x18f]) % 14);
+        (0..b.plan.chain.n_locks).map(|i| (ScriptRef::Lock(i), from)).collect()
+    } else {
+        scripts
     };
     add(&mut b.plan, b.rng.range(0, 3_000), Action::User(UserOp::SetScripts { cmd: SetCmd::All, scripts }));
     let n_sub = if b.rng.chance(1, 4) { b.rng.range(70, 110) } else { b.rng.range(3, 24) };
